@@ -170,12 +170,14 @@ def run_family(run, exe, prop, configs, parallel=5, workers=3, env=None, cap_tou
     run.cov["spec_parameters_from_code"] = {"DbgFixed": dbg, "CvFix": cvfix, "K": consts()["K"], "masks": {k: consts()[k] for k in ("WLOCK", "SPIN", "WAITING", "DESIG", "CONDB", "WRW", "LONGW", "ALLF", "RLOCK")},
                                             "LTW": consts()["LTW"], "LTR": consts()["LTR"]}
 
+    exe_bin = build("h_mub") if any(c.get("Binary") for _, c in configs) else None
+
     def one(item):
         name, conf = item
         conf = dict(conf)
         conf.setdefault("DbgFixed", dbg)
         conf.setdefault("CvFix", cvfix)
-        return name, conf, run_config(run, exe, name, conf, [], workers=workers, prop=prop, env=env, cap_tours=cap_tours)
+        return name, conf, run_config(run, exe_bin if conf.get("Binary") else exe, name, conf, [], workers=workers, prop=prop, env=env, cap_tours=cap_tours)
     results = []
     with cf.ThreadPoolExecutor(parallel) as ex:
         for r in ex.map(one, configs):
@@ -195,7 +197,7 @@ def run_family(run, exe, prop, configs, parallel=5, workers=3, env=None, cap_tou
             if f["name"] not in wanted_inv:
                 run.note("spec-level refutation outside this property: " + tag)
                 continue
-            ok, path, detail = confirm(run, exe, name, out, f, k)
+            ok, path, detail = confirm(run, exe_bin if conf.get("Binary") else exe, name, out, f, k)
             if ok:
                 run.violation(tag, path, "Mu.tla (constants from the code) refutes %s in configuration %s; %s" % (f["name"], name, detail))
             else:
@@ -203,7 +205,7 @@ def run_family(run, exe, prop, configs, parallel=5, workers=3, env=None, cap_tou
         if out["res"]["mismatch"]:
             # DESIGN 3.7: a divergence is not a violation; it triggers extra exploration of that configuration, judged by oracles only
             nloc = 20000 if run.tier == "quick" else 300000
-            resx = run_harness_env(exe, ["random", str(nloc), str(seed() + 7), out["init"], REPLAYS], out["env"])
+            resx = run_harness_env(exe_bin if conf.get("Binary") else exe, ["random", str(nloc), str(seed() + 7), out["init"], REPLAYS], out["env"])
             run.add("evaluations", nloc); run.add("distinct_nontrivial", resx["stats"].get("nontrivial", 0))
             run.cov.setdefault("local_exploration_after_divergence", []).append({"config": name, "runs": nloc, "violations": len(resx["viols"])})
             for v in resx["viols"]:
